@@ -3,6 +3,8 @@ import os
 import subprocess
 from . import common as C
 
+OCAML = ["c20"]
+GO = ["c20"]
 PROP = "props/C20.v"
 PROOFS = ["proofs/PortProofs.v", "proofs/PortMain.v", "model/Port.v"]
 
